@@ -385,6 +385,27 @@ class Program:
                 if b.path not in self.bodies:
                     self.bodies[b.path] = b
         self.missing = missing
+        # inherent impls written in a module other than the type's have def paths `module::<impl Type>::method`, while callee
+        # paths are generic-stripped (`module::method`): rename such hand-written bodies (and their closures / promoteds) to the
+        # stripped path when that is unambiguous, so that workspace calls to them resolve
+        self.alias = {}
+        cands = {}
+        for b in list(self.bodies.values()):
+            if "<impl" in b.path and not b.derive and b.kind in ("fn", "method", "closure"):
+                cands.setdefault(strip_generics(b.path), []).append(b)
+        for ap, bs in cands.items():
+            if len(bs) == 1 and ap not in self.bodies:
+                self.alias[bs[0].path] = ap
+        for b in list(self.bodies.values()):
+            if b.path in self.alias:
+                b.raw_path = b.path
+                b.path = self.alias[b.path]
+                self.bodies[b.path] = b
+                self.multi.setdefault(b.path, []).append(b)
+            if getattr(b, "parent", None) in self.alias:
+                b.parent = self.alias[b.parent]
+            if getattr(b, "parent_direct", None) in self.alias:
+                b.parent_direct = self.alias[b.parent_direct]
 
     def body(self, path):
         return self.bodies.get(path)
